@@ -33,7 +33,7 @@ static long long cap_now;
 # error pick a side
 #endif
 
-#define INPUTS X(ms) XA(dg, 7) X(nd) X(due_sod) X(now) X(fsec) X(tsec)
+#define INPUTS X(ms) XA(dg, 7) X(nd) X(due_sod) X(now) X(fd) X(fH) X(fM) X(fS) X(td) X(tH) X(tM) X(tS)
 #include "sym.h"
 
 #define LMAX	(30LL * 86400000LL)
@@ -56,23 +56,27 @@ struct passwd *getpwuid(uid_t u) { (void)u; return &PW; }
 #endif
 
 #if defined SIDE_E
-/* Europe/Berlin, local seconds counted from 2015-03-28 00:00 wall clock: UTC+1 before
- * 02:00 on the 29th, UTC+2 from 03:00 on (02:00..03:00 does not exist) */
-static long long berlin_off(long long lsec) { return lsec < 86400 + 7200 ? 3600 : 7200; }
+/* Europe/Berlin around 2015-03-29: wall clock before 02:00 on the 29th is UTC+1, from 03:00 on
+ * UTC+2 (02:00..03:00 does not exist).  Offsets in whole hours. */
+static int berlin_offh(long long d, long long H) { return d < 29 || (d == 29 && H < 2) ? 1 : 2; }
 # if defined VERIF_CBMC
 echs_instant_t echs_instant_utc(echs_instant_t i, echs_tzob_t z)
 {
 	(void)z;
 	i = echs_instant_detach_tzob(i);
-	const long long lsec = ((long long)i.d - 28) * 86400 + i.H * 3600LL + i.M * 60LL + i.S;
-	return echs_instant_add(i, (echs_idiff_t){-berlin_off(lsec) * 1000});
+	const unsigned int o = (unsigned int)berlin_offh(i.d, i.H);
+	if (i.H >= o) {
+		i.H -= o;
+	} else {
+		i.H += 24U - o, i.d -= 1U;
+	}
+	return i;
 }
 # endif
-static echs_instant_t berlin_wall(long long lsec, echs_tzob_t z)
+static echs_instant_t berlin_wall(long long d, long long H, long long M, long long S, echs_tzob_t z)
 {
 	echs_instant_t i = {.u = 0U};
-	i.y = 2015, i.m = 3, i.d = 28U + (unsigned)(lsec / 86400);
-	i.H = (unsigned)(lsec % 86400 / 3600), i.M = (unsigned)(lsec / 60 % 60), i.S = (unsigned)(lsec % 60), i.ms = ECHS_ALL_SEC;
+	i.y = 2015, i.m = 3, i.d = (unsigned)d, i.H = (unsigned)H, i.M = (unsigned)M, i.S = (unsigned)S, i.ms = ECHS_ALL_SEC;
 	return echs_instant_attach_tzob(i, z);
 }
 #endif
@@ -126,16 +130,17 @@ void harness(void)
 #elif defined SIDE_E
 	static struct ical_vevent_s ve;
 	/* wall-clock DTSTART and DTEND, both TZID=Europe/Berlin, anywhere in 2015-03-28..30, not inside the gap */
-	ASSUME(in.fsec >= 0 && in.fsec < 3 * 86400 && in.tsec >= 0 && in.tsec < 3 * 86400);
-	ASSUME(!(in.fsec >= 86400 + 7200 && in.fsec < 86400 + 10800) && !(in.tsec >= 86400 + 7200 && in.tsec < 86400 + 10800));
-	const long long want = (in.tsec - berlin_off(in.tsec)) - (in.fsec - berlin_off(in.fsec));
+	ASSUME(in.fd >= 28 && in.fd <= 30 && in.fH >= 0 && in.fH < 24 && in.fM >= 0 && in.fM < 60 && in.fS >= 0 && in.fS < 60);
+	ASSUME(in.td >= 28 && in.td <= 30 && in.tH >= 0 && in.tH < 24 && in.tM >= 0 && in.tM < 60 && in.tS >= 0 && in.tS < 60);
+	ASSUME(!(in.fd == 29 && in.fH == 2) && !(in.td == 29 && in.tH == 2));
+	const long long want = ((in.td - in.fd) * 24 + (in.tH - berlin_offh(in.td, in.tH)) - (in.fH - berlin_offh(in.fd, in.fH))) * 3600 + (in.tM - in.fM) * 60 + (in.tS - in.fS);
 	ASSUME(want > 0);
 # if defined VERIF_CBMC
 	const echs_tzob_t Z = 0x40U;	/* any value inside ECHS_DMASK */
 # else
 	const echs_tzob_t Z = echs_tzob("Europe/Berlin", 13U);
 # endif
-	ve.from = berlin_wall(in.fsec, Z), ve.till = berlin_wall(in.tsec, Z);
+	ve.from = berlin_wall(in.fd, in.fH, in.fM, in.fS, Z), ve.till = berlin_wall(in.td, in.tH, in.tM, in.tS, Z);
 	ve.t.oid = 9U, ve.t.umsk = 1U, ve.t.max_simul = 0U;
 	struct echs_task_s *t = make_task(&ve);
 	CHECK(t != NULL, "event accepted");
